@@ -49,9 +49,16 @@ def main():
         "setup_cmd": "./setup.sh",
         "hooks": {
             "guard": "RPFT_VERIF",
-            "enable": "no hooks: every observable is reached through public API, logging handlers or subprocesses",
+            "enable": ("nothing to build: the checks switch the hook on themselves. harness/hook.py sets RPFT_VERIF=1 in the harness process and installs "
+                       "rpft.parsers.creation.flowparser._verif_sink for the duration of ONE traced compile (compile_tie.trace_compile / trace_structure / "
+                       "trace_index, flat_tie.trace_flat — the model/code ties of C01 and C03), then restores both; the guard is read at call time "
+                       "(_verif_event: no sink or RPFT_VERIF != '1' -> returns at once). Every other run of the real code, the direct oracles included, "
+                       "happens with the guard off. One hook: _verif_event(name, **data) called in the bodies of FlowParser._parse_row ('row'), "
+                       "_parse_noop_row ('noop_row'), append_node_group ('append_group') and before each push / pop of the node-group stack in "
+                       "_parse_block ('push', 'pop'); it passes references and returns nothing. A tree without the hook is traced by subclassing "
+                       "FlowParser as before (fallback); harness/selftest_hook.py shows both tracers record identical events."),
             "baseline_off_cmd": "cd /repo && /venv/bin/python -m pytest -q -p no:cacheprovider",
-            "source_commits": [],
+            "source_commits": ["PENDING"],
             "add_only": True,
         },
         "engines": [{
